@@ -253,14 +253,14 @@ func (vc *FuncVC) calleeVars(con *Contract, fn *ssa.Function, sig *types.Signatu
 				vc.errs = append(vc.errs, fmt.Sprintf("contract %s: %v", con.Name, err))
 				t = tRef
 			}
-			vars[p.Name] = SV{args[i], t}
+			vars[p.Name] = SV{V: args[i], T: t}
 		}
 		return vars, pkg
 	}
 	if fn != nil {
 		for i, p := range fn.Params {
 			if i < len(args) {
-				vars[p.Name()] = SV{args[i], p.Type()}
+				vars[p.Name()] = SV{V: args[i], T: p.Type()}
 			}
 		}
 		if pk := fnPkg(fn); pk != nil && pkg == "" {
@@ -274,7 +274,7 @@ func (vc *FuncVC) calleeVars(con *Contract, fn *ssa.Function, sig *types.Signatu
 	}
 	for i := 0; i < sig.Params().Len(); i++ {
 		if i+off < len(args) {
-			vars[sig.Params().At(i).Name()] = SV{args[i+off], sig.Params().At(i).Type()}
+			vars[sig.Params().At(i).Name()] = SV{V: args[i+off], T: sig.Params().At(i).Type()}
 		}
 	}
 	return vars, pkg
@@ -285,23 +285,23 @@ func (vc *FuncVC) bindResults(vars map[string]SV, con *Contract, fn *ssa.Functio
 	switch rs.Len() {
 	case 0:
 	case 1:
-		vars["result"] = SV{res, rs.At(0).Type()}
+		vars["result"] = SV{V: res, T: rs.At(0).Type()}
 		if n := rs.At(0).Name(); n != "" && n != "_" {
-			vars[n] = SV{res, rs.At(0).Type()}
+			vars[n] = SV{V: res, T: rs.At(0).Type()}
 		}
 	default:
 		for i := 0; i < rs.Len(); i++ {
-			vars[fmt.Sprintf("result%d", i)] = SV{res.Fs[i], rs.At(i).Type()}
+			vars[fmt.Sprintf("result%d", i)] = SV{V: res.Fs[i], T: rs.At(i).Type()}
 			if n := rs.At(i).Name(); n != "" && n != "_" {
-				vars[n] = SV{res.Fs[i], rs.At(i).Type()}
+				vars[n] = SV{V: res.Fs[i], T: rs.At(i).Type()}
 			}
 		}
 	}
 	for i, p := range con.Results {
 		if rs.Len() == 1 && i == 0 {
-			vars[p.Name] = SV{res, rs.At(0).Type()}
+			vars[p.Name] = SV{V: res, T: rs.At(0).Type()}
 		} else if i < rs.Len() {
-			vars[p.Name] = SV{res.Fs[i], rs.At(i).Type()}
+			vars[p.Name] = SV{V: res.Fs[i], T: rs.At(i).Type()}
 		}
 	}
 }
@@ -310,9 +310,9 @@ func (vc *FuncVC) applyContract(st *State, con *Contract, name string, fn *ssa.F
 	vars, pkg := vc.calleeVars(con, fn, sig, args, !invoke && fn == nil)
 	if fn == nil && len(con.Params) == 0 && invoke {
 		// interface contract without params: receiver is "recv"
-		vars["recv"] = SV{args[0], tRef}
+		vars["recv"] = SV{V: args[0], T: tRef}
 		for i := 0; i < sig.Params().Len(); i++ {
-			vars[sig.Params().At(i).Name()] = SV{args[i+1], sig.Params().At(i).Type()}
+			vars[sig.Params().At(i).Name()] = SV{V: args[i+1], T: sig.Params().At(i).Type()}
 		}
 	}
 	vc.usedContracts[name] = con
@@ -490,6 +490,11 @@ func (vc *FuncVC) havocItem(st *State, env *SpecEnv, m *Expr, who string) {
 }
 
 func (vc *FuncVC) havocLoc(st *State, l *Loc) {
+	if l.Whole {
+		st.cur(l.Heap, smtSortOf(l.Typ))
+		st.havocHeap(l.Heap)
+		return
+	}
 	switch l.Typ.Underlying().(type) {
 	case *types.Slice:
 		st.storeSliceTo(l.Heap, l.Idx, st.freshVal(l.Typ, "havoc"))
